@@ -2,7 +2,7 @@
 # seed_batch.sh Cxx [round] : evaluate /tmp/wt<round>-Cxx/SEED/{A,B} and keep valid ones as /verif/seeded/Cxx-<round><A|B>
 id=$1
 rnd=${2:-}
-for s in A B C; do
+for s in A B C D; do
   if [ -f /tmp/wt$rnd-$id/SEED/$s/patch.diff ]; then
     /venv/bin/python /verif/tools/seed_eval.py /tmp/wt$rnd-$id/SEED/$s $id $id-$rnd$s --keep 2>&1 | /venv/bin/python -c "
 import sys,json,re
